@@ -23,7 +23,11 @@ RULE = ("(sequences) each run = 3-12 remote operations drawn from f(\"expr\"), f
         "dictionary set/get, f(:var), remote function definition and a burst of up to three concurrent Python-level calls, over "
         "values of the transportable universe, executed against a live real server under a seeded schedule with seeded stream "
         "fragmentation; the oracle is the same operation on a twin interpreter; non-trivial = at least one frame was delivered in "
-        "more than one fragment or two frames were merged into one read; distinct = digest of the event log.  (cuts) each case = "
+        "more than one fragment or two frames were merged into one read; distinct = digest of the event log.  Also drawn: "
+        "a backend behind the server (chain), zero-argument calls, redefinition with another arity, the same expression text "
+        "around remote sets that change the kind of its variables, equal text of different kinds, functions used locally before "
+        "being installed remotely, a second client connection reading during a call, responses of 70 kB and 17.6 MB, an "
+        "unencodable request inside a burst.  (cuts) each case = "
         "1-3 consecutive frames; ALL ways of cutting the stream into <= 3 reads are enumerated; evaluations = cut patterns")
 ASSUMPTIONS = [
     "fault-free network (in-order lossless pipes): only fragmentation, coalescing, delay and interleaving vary",
@@ -36,7 +40,10 @@ REAL_STUB = {
     "stub": ["event loops -> SimLoop", "TCP -> SimNet (drawn fragment sizes biased to field boundaries)", "threading.Event -> SimEvent", "uuid4 -> counter"],
 }
 EXPECTED_PROBES = ["probe_frame_fragmented", "probe_frames_coalesced", "probe_undefined_transported", "probe_proxy_call", "probe_dict_set_get",
-                   "probe_remote_fn_definition", "probe_burst", "probe_big_response", "probe_nested_list", "probe_dictionary_value", "probe_server_error_last"]
+                   "probe_remote_fn_definition", "probe_burst", "probe_big_response", "probe_nested_list", "probe_dictionary_value", "probe_server_error_last",
+                   "probe_same_text_after_remote_set", "probe_unencodable_request_in_burst", "probe_equal_text_of_different_kinds",
+                   "probe_second_connection_reads_during_a_call", "probe_response_above_16MiB",
+                   "probe_remote_definition_of_a_function_used_locally_first", "probe_chain_backend", "probe_unbound_symbol"]
 WALL_CAP = {"quick": 400, "thorough": 3600}
 EXHAUSTIVE_NOTE = "configuration 'cuts' enumerates every (a<=b) split of the concatenated frames into three reads exhaustively for each generated case"
 
